@@ -35,9 +35,12 @@ let parse_cfg (lines : string list) : cfg =
         done;
         c.lines <- c.lines @ [line]
       | "writer" :: w :: ps ->
-        let pl = List.map (fun p ->
+        let pl = List.concat_map (fun p ->
+            let (p, reps) = match String.split_on_char '*' p with
+              | [a; n] -> (a, int_of_string n) | _ -> (p, 1) in
             match String.split_on_char ':' p with
-            | [cx; e; ok] -> { p_ctx = n_of_int (int_of_string cx); p_eph = (e = "e"); p_ok = (ok = "ok") }
+            | [cx; e; ok] ->
+              List.init reps (fun _ -> { p_ctx = n_of_int (int_of_string cx); p_eph = (e = "e"); p_ok = (ok = "ok") })
             | _ -> failwith ("bad payload " ^ p)) ps in
         c.writers <- c.writers @ [(int_of_string w, pl)]; c.lines <- c.lines @ [line]
       | ["follower"; k; follow; tail; last; limit; cx; pulse] ->
@@ -239,6 +242,27 @@ let of_labels (locked : bool) (cfg : cfg) (labels : (string * int) list) : strin
   List.iter (fun (name, i) ->
       let n = nat_of_int i in
       if name = "probe" then out := probe_line !s i :: !out
+      else if name = "drain" then out := (Printf.sprintf "go drain %d =>" i) :: !out
+      else if name = "burst" then begin
+        (* writer i runs all its remaining appends without parking *)
+        let s0 = !s in
+        let guard = ref 0 in
+        let continue = ref true in
+        while !continue && !guard < 100000 do
+          incr guard;
+          let w = List.nth !s.g_ws i in
+          let l = match w.w_st with
+            | WIdle -> if w.w_todo = [] then None else Some (LEnter n)
+            | WAssigned _ -> Some (LCommit n) | WCommitted _ -> Some (LBcast n) | WBcasted _ -> Some (LRelease n)
+            | WBlocked -> None in
+          match l with
+          | None -> continue := false
+          | Some l -> (match cstep !s l with Some s' -> s := s' | None -> continue := false)
+        done;
+        s := settle !s;
+        out := (Printf.sprintf "go burst %d => %s" i
+                  (String.concat " " (diff_parks s0 !s (Some (Printf.sprintf "W%d" i))))) :: !out
+      end
       else
         let l = match name with
           | "enter" -> LEnter n | "commit" -> LCommit n | "bcast" -> LBcast n | "release" -> LRelease n
